@@ -281,12 +281,12 @@ class Body:
                 b = self.blocks[bi]
                 for si, st in enumerate(b["stmts"]):
                     pl = st["pl"]
-                    kind = "assign" if not pl["p"] else "part"
+                    kind = "assign" if not pl["p"] else ("deref" if pl["p"][0] == "*" else "part")
                     d[pl["l"]].append((Site(self, bi, si), kind, st))
                 t = b["term"]
                 if t["k"] == "call":
                     pl = t["dest"]
-                    kind = "call" if not pl["p"] else "part"
+                    kind = "call" if not pl["p"] else ("deref" if pl["p"][0] == "*" else "part")
                     d[pl["l"]].append((Site(self, bi, "T"), kind, t))
                 elif t["k"] == "yield":
                     pl = t["resume_arg"]
@@ -295,7 +295,7 @@ class Body:
         return self._defs
 
     def single_def(self, local):
-        ds = [x for x in self.defs.get(local, []) if x[1] != "part"]
+        ds = [x for x in self.defs.get(local, []) if x[1] not in ("part", "deref")]
         if len(ds) == 1 and not [x for x in self.defs.get(local, []) if x[1] == "part"]:
             return ds[0]
         return None
